@@ -45,6 +45,18 @@ static void add_compressor_streams(void) {
         snprintf(name, sizeof name, "compressor k=%d n=%zu", k, n);
         add_rec(name, dst, o.pos, src, n);
     }
+    /* large Huffman literal sections whose four streams run at different speeds: one quarter of the literals uses three frequent symbols (short codes, two
+     * symbols per double-symbol lookup), the other quarters a flat 60-symbol alphabet; no matches */
+    {   static u8 big[12000], cbig[16000];
+        for (int v = 0; v < 8; v++) {
+            size_t n = v < 4 ? 2500 : 12000; int fastq = v & 3; uint32_t sd = 77 + (uint32_t)v; char name[80];
+            for (size_t i = 0; i < n; i++) { sd = sd * 1103515245u + 12345u; unsigned r = (sd >> 10) & 0xffff; big[i] = (int)(i * 4 / n) == fastq ? (u8)("eta"[r % 3 ? 0 : 1 + (r >> 3) % 2]) : (u8)('A' + r % 60); }
+            ZSTD_CCtx* c = ZSTD_createCCtx(); ZSTD_CCtx_setParameter(c, ZSTD_c_windowLog, 17); ZSTD_CCtx_setParameter(c, ZSTD_c_compressionLevel, 1); ZSTD_CCtx_setParameter(c, ZSTD_c_checksumFlag, 1);
+            size_t cs = ZSTD_compress2(c, cbig, sizeof cbig, big, n); ZSTD_freeCCtx(c);
+            if (ZSTD_isError(cs)) continue;
+            snprintf(name, sizeof name, "compressor literals n=%zu fast-quarter=%d", n, fastq);
+            add_rec(name, cbig, cs, big, n);
+        } }
 }
 
 /* frame layout of a record, from the reference decoder: end offsets of each frame in the input and in the content */
